@@ -232,9 +232,10 @@ class Fn:
     def loc(self, bb=None, idx=None):
         if bb is None:
             return "%s:%d" % (self.file, self.j["sp"]["l0"])
+        file = self.blocks[bb].get("file") or self.file      # blocks of an inlined helper keep their own file
         if idx is not None and idx < len(self.stmts(bb)):
-            return "%s:%d" % (self.file, self.stmts(bb)[idx].get("line", 0))
-        return "%s:%d" % (self.file, self.term_line(bb))
+            return "%s:%d" % (file, self.stmts(bb)[idx].get("line", 0))
+        return "%s:%d" % (file, self.term_line(bb))
 
     # ---------------------------------------------------------------- defs of locals
     def defs(self):
